@@ -96,7 +96,9 @@ struct H
 	virtual void *append(size_t, const void *) { return 0; }
 	virtual bool from_slice(const H &, size_t, size_t) { return false; }
 	virtual int setv(const value &) { return -1; }
-	virtual int ebuf(size_t) { return -2; }
+	virtual int setc(convertable &) { return -1; }
+	virtual int print(const char *) { return -1; }
+	virtual int ebuf(size_t, char *, size_t) { return -2; }
 	/* typed */
 	virtual int tinsert(long, const uint8_t *) { return -1; }
 	virtual int tset(long, const uint8_t *) { return -1; }
@@ -121,6 +123,25 @@ public:
 	XA(const XA &a) : array(a) { }
 	const buffer *b() const { return _buf.instance(); }
 };
+/* a convertable that offers exactly one representation: v = generic vector, c = character vector, s = string,
+ * z = "no string" (conversion to 's' answers 0), e = nothing */
+struct Conv : public convertable
+{
+	int mode;
+	struct iovec vec;
+	const char *txt;
+	int convert(type_t type, void *ptr) __MPT_OVERRIDE
+	{
+		if (!type) { if (ptr) *static_cast<const uint8_t **>(ptr) = 0; return 0; }
+		if ((mode == 'v' && type == TypeVector) || (mode == 'c' && type == MPT_type_toVector('c'))) {
+			if (ptr) *static_cast<struct iovec *>(ptr) = vec;
+			return type;
+		}
+		if (mode == 's' && type == 's') { if (ptr) *static_cast<const char **>(ptr) = txt; return 's'; }
+		if (mode == 'z' && type == 's') { if (ptr) *static_cast<const char **>(ptr) = 0; return 0; }
+		return BadType;
+	}
+};
 struct HA : H
 {
 	XA a;
@@ -133,8 +154,23 @@ struct HA : H
 	void *insert(size_t o, size_t n, const void *d) { return a.insert(o, n, d); }
 	void *append(size_t n, const void *d) { return a.append(n, d); }
 	int setv(const value &v) { return a.set(v); }
+	int setc(convertable &c) { return a.set(c); }
+	int print(const char *txt) { return a.printf("%s", txt); }
 	/* an io::buffer over the array (a further handle on the same data) consumes n bytes and compacts itself */
-	int ebuf(size_t n) { io::buffer b(a); int r = b.shift(n) ? 1 : 0; return r | (b.shift(0) ? 2 : 0); }
+	int ebuf(size_t n, char *hex, size_t max)
+	{
+		static const char dg[] = "0123456789abcdef";
+		io::buffer b(a);
+		int r = b.shift(n) ? 1 : 0;
+		r |= (b.shift(0) ? 2 : 0);
+		/* what the buffer still offers to its reader */
+		span<const uint8_t> d = b.data();
+		size_t k = 0;
+		for (size_t i = 0; i < d.size() && k + 3 < max; i++) { hex[k++] = dg[d.begin()[i] >> 4]; hex[k++] = dg[d.begin()[i] & 15]; }
+		if (!k) hex[k++] = '-';
+		hex[k] = 0;
+		return r;
+	}
 	bool from_slice(const H &o, size_t off, size_t len)
 	{
 		slice sl(static_cast<const HA &>(o).a);
@@ -368,7 +404,7 @@ static void put_state(const char *verdict, const char *detail, const char *ret, 
 	}
 	printf(" heap=%zu\n", __sanitizer_get_current_allocated_bytes() - heap0);
 }
-static char r_verdict[16], r_ret[48], r_detail[16] = "-";
+static char r_verdict[16], r_ret[48], r_detail[1 << 18] = "-";
 static int r_have, r_final;
 static void result(const char *verdict, const char *ret, int final = 0)
 {
@@ -517,6 +553,18 @@ int main(void)
 					txt = (char *) malloc(dlen + 1); memcpy(txt, dat, dlen); txt[dlen] = 0; tp = txt;
 					v.set('s', &tp);
 				}
+				else if (!strcmp(drv_w[3], "a")) {
+					/* a character array as value: the text is taken over, terminated if it is not */
+					static array src;
+					src = array();
+					if (!mpt_array_reserve(&src, dlen, type_traits::get('c')) || (dlen && !mpt_array_set(&src, type_traits::get('c'), dlen, dat, 0))) BAD;
+					v.set(TypeArray, &src);
+					r = hs[h]->setv(v);
+					src = array();
+					if (r < 0) result("refused", drv_errname(r));
+					else { char ret[16]; snprintf(ret, sizeof(ret), "%d", r); result("ok", ret); }
+					goto done_setv;
+				}
 				else if (!strcmp(drv_w[3], "i") && dlen == 4) { memcpy(&iv, dat, 4); v.set('i', &iv); }
 				else if (!strcmp(drv_w[3], "d") && dlen == 8) { memcpy(&dv, dat, 8); v.set('d', &dv); }
 				else BAD;
@@ -524,11 +572,35 @@ int main(void)
 				free(txt);
 				if (r < 0) result("refused", drv_errname(r));
 				else { char ret[16]; snprintf(ret, sizeof(ret), "%d", r); result("ok", ret); }
+done_setv:		;
+			}
+			else if (!strcmp(op, "printf") && drv_nw == 4) {       /* array::printf("%s", text) */
+				if (data_arg(drv_w[3], &dat, &dlen, &isnull) || isnull || memchr(dat, 0, dlen)) BAD;
+				char *txt = (char *) malloc(dlen + 1); memcpy(txt, dat, dlen); txt[dlen] = 0;
+				int r = hs[h]->print(txt);
+				free(txt);
+				if (r < 0) result("refused", drv_errname(r));
+				else { char ret[16]; snprintf(ret, sizeof(ret), "%d", r); result("ok", ret); }
+			}
+			else if (!strcmp(op, "setc") && drv_nw == 5) {         /* array::set(convertable &) */
+				Conv c;
+				char *txt = 0;
+				int r;
+				if (data_arg(drv_w[4], &dat, &dlen, &isnull) || isnull || strlen(drv_w[3]) != 1 || !strchr("vcsze", drv_w[3][0])) BAD;
+				if (drv_w[3][0] == 's' && memchr(dat, 0, dlen)) BAD;
+				txt = (char *) malloc(dlen + 1); memcpy(txt, dat, dlen); txt[dlen] = 0;
+				c.mode = drv_w[3][0]; c.vec.iov_base = dat; c.vec.iov_len = dlen; c.txt = txt;
+				r = hs[h]->setc(c);
+				free(txt);
+				if (r < 0) result("refused", drv_errname(r));
+				else { char ret[16]; snprintf(ret, sizeof(ret), "%d", r); result("ok", ret); }
 			}
 			else if (!strcmp(op, "ebuf") && drv_nw == 4) {
 				if (drv_parse_nat(drv_w[3], &a) || a > 100000) BAD;
-				char ret[16]; snprintf(ret, sizeof(ret), "%d", hs[h]->ebuf(a));
+				static char hex[1 << 18];
+				char ret[16]; snprintf(ret, sizeof(ret), "%d", hs[h]->ebuf(a, hex, sizeof(hex)));
 				result("ok", ret);
+				snprintf(r_detail, sizeof(r_detail), "%s", hex);
 			}
 			else if (!strcmp(op, "setslice") && drv_nw == 6) {     /* h = slice(h2) restricted to [off, off+len) */
 				if ((h2 = handle_arg(drv_w[3])) < 0 || drv_parse_nat(drv_w[4], &a) || drv_parse_nat(drv_w[5], &b)) BAD;
